@@ -2,9 +2,11 @@ SPECIFICATION Spec
 CONSTANTS
   MaxNvar = 2
   MaxNs = 3
-  Drifts = {"SK", "OK", "LIN", "EXT"}
+  Drifts = {"SK", "OK", "LIN", "EXT", "QUAD"}
   WithVerr = {FALSE, TRUE}
   Targets = {"point", "block"}
+  Ndims = {1, 2, 3}
+  BigNs = {7}
 INVARIANT AlgEqualsDef Symmetric Count HasUniversality PermuteLaw ExactLaw UniversalityLaw
 CONSTRAINT Emit
 CHECK_DEADLOCK FALSE
